@@ -773,11 +773,12 @@ func genContract(g *genCtx, c *Contract, out *strings.Builder) error {
 		// rename map from contract param names to real names
 		for n, ls := range c.Loops {
 			if n >= len(loops) {
-				if c.Shared {
-					delete(c.Loops, n) // shared head: the clause applies where the loop exists
-					continue
+				if !c.Shared {
+					// the code changed shape: the clause is stale, the rest of the contract is still checked
+					fmt.Fprintf(os.Stderr, "STALE-LOOP-CLAUSE contract %s: loop %d does not exist (function has %d loops); clause ignored\n", c.Name, n, len(loops))
 				}
-				return fmt.Errorf("loop %d does not exist (function has %d loops)", n, len(loops))
+				delete(c.Loops, n) // (shared head: the clause applies where the loop exists)
+				continue
 			}
 			var pos token.Pos
 			var sc *types.Scope
